@@ -6,7 +6,8 @@ Driver of the file-system model (C09): reads the request lines of a crash histor
 `os` calls the directory store is expected to issue: `st=<st> fsops=[call;call;…]`.
 
 Arguments: `stop` - the empty-repository removal gives up at the first entry it cannot remove (patch F5);
-`readdir` - the algorithm directories removed are those found under blobs/ (patch F7).  Without arguments the
+`readdir` - the algorithm directories removed are those found under blobs/ (patch F7); `notouch` - `blobCreate` does
+not yet refresh the age of an existing blob (tree before repair F38).  Without arguments the
 driver follows the unpatched code.  Which variant applies is read off the tree under test by `vlib/p_crash.py`.
 -/
 
@@ -51,9 +52,16 @@ def opStr (repo : String) : FsOp → String
   | .rename a b => "rename " ++ pathStr repo a ++ " " ++ pathStr repo b
   | .remove p => "remove " ++ pathStr repo p
   | .writeFile p _ => "writefile " ++ pathStr repo p
+  | .chtimes p => "chtimes " ++ pathStr repo p
 
-def render (repo : String) (ss : List Step) : String :=
-  "[" ++ ";".intercalate ((stepsOps ss).map (opStr repo)) ++ "]"
+def isChtimes : FsOp → Bool
+  | .chtimes _ => true
+  | _ => false
+
+/-- `notouch`: a tree before repair F38 (`blobCreate` does not refresh the age of an existing blob) -/
+def render (notouch : Bool) (repo : String) (ss : List Step) : String :=
+  let ops := if notouch then (stepsOps ss).filter (fun o => !isChtimes o) else stepsOps ss
+  "[" ++ ";".intercalate (ops.map (opStr repo)) ++ "]"
 
 def preOf (t : List String) : Pre :=
   { r := 0, mex := flag t "mex", mconv := flag t "mconv", D := flag t "D", L := flag t "L", I := flag t "I", U := flag t "U",
@@ -68,6 +76,7 @@ def contentsOf (t : List String) : Contents :=
 structure Variant where
   stop : Bool
   readdir : Bool
+  notouch : Bool := false
 
 /-- `alg=<name>:<count before>:<removed>` facts of a collection, in directory order -/
 def algFacts (toks : List String) : List (Nat × Nat × Nat) :=
@@ -132,7 +141,7 @@ def answer (v : Variant) (line : String) : String :=
   | kind :: rest =>
     let st := kvOf rest "st"
     match stepsOf v kind rest with
-    | some ss => s!"st={st} fsops={render (kvOf rest "repo") ss}"
+    | some ss => s!"st={st} fsops={render v.notouch (kvOf rest "repo") ss}"
     | none => s!"st={st} fsops=?"
 
 partial def loop (v : Variant) (h : IO.FS.Stream) (out : IO.FS.Stream) : IO Unit := do
@@ -142,4 +151,4 @@ partial def loop (v : Variant) (h : IO.FS.Stream) (out : IO.FS.Stream) : IO Unit
   loop v h out
 
 def main (args : List String) : IO Unit := do
-  loop { stop := args.contains "stop", readdir := args.contains "readdir" } (← IO.getStdin) (← IO.getStdout)
+  loop { stop := args.contains "stop", readdir := args.contains "readdir", notouch := args.contains "notouch" } (← IO.getStdin) (← IO.getStdout)
